@@ -208,6 +208,16 @@ ELEM = {
 CONST = {"pi": mp.pi, "I": mp.mpc(0, 1), "oo": mp.inf, "E": mp.e}
 
 
+def modv(a, b):
+    """a mod b with the sign of the divisor (real operands; anything else is compared as an opaque function of both)"""
+    if (isinstance(a, mp.mpc) and a.imag != 0) or (isinstance(b, mp.mpc) and b.imag != 0) or b == 0:
+        return opaque("fn:Mod", [a, b])
+    a, b = mp.re(a), mp.re(b)
+    if abs(a / b) > mp.mpf(10) ** 12:
+        return opaque("fn:Mod", [a, b])   # the residue of a quotient this large is not determined at working precision
+    return a - b * mp.floor(a / b)
+
+
 def ev_ast(n, env):
     k = n[0]
     if k == "num":
@@ -241,6 +251,8 @@ def ev_ast(n, env):
                 return mp.log(args[0]) if len(args) == 1 else mp.log(args[0]) / mp.log(args[1])
             if f in ELEM and len(args) == 1 and not isinstance(args[0], list):
                 return ELEM[f](args[0])
+            if f == "Mod" and len(args) == 2 and not any(isinstance(a_, list) for a_ in args):
+                return modv(args[0], args[1])
             if f in ("min", "max", "Min", "Max"):
                 pass
             if f == "Derivative":
